@@ -343,14 +343,16 @@ K.at = _k_at
 K.shape = _k_shape
 
 
-def _k_absfunc(self, name, params, outputs=1, out_keys=None, ret="float"):
+def _k_absfunc(self, name, params, outputs=1, out_keys=None, ret="float", vector=False):
     """uninterpreted function with the given signature (symbolic) / linear test function (native);
     both expose .spec(values_by_name, output_index)"""
     from .absfunc import AbsFunc, native_function
 
     if self.mode == "native":
-        return native_function(name, params, outputs, out_keys)
-    return AbsFunc(name, params, outputs, out_keys, ret)
+        return native_function(name, params, outputs, out_keys, vector)
+    f = AbsFunc(name, params, outputs, out_keys, ret)
+    f._a.vector = vector
+    return f
 
 
 K.absfunc = _k_absfunc
